@@ -41,6 +41,7 @@ fn main() {
 }
 
 fn dispatch(args: Vec<String>) {
+    alloc::mark_worker_thread();
     match args[1].as_str() {
         "script" => run_script(&args[2], &args[3], flag(&args, "--from").unwrap_or(0), flag(&args, "--count").unwrap_or(usize::MAX)),
         "big" => run_each(&args[2], &args[3], flag(&args, "--from").unwrap_or(0), flag(&args, "--count").unwrap_or(usize::MAX), big::run_case),
